@@ -399,6 +399,7 @@ impl Work<Context, AnyWorkId, Error> for GlyphWork {
             CheckedGlyph::Contour { name, paths } => {
                 // Convert paths to SimpleGlyphs in parallel so we can get consistent point streams
                 let (locations, bezpaths): (Vec<_>, Vec<_>) = paths.into_iter().unzip();
+                check_coordinates_fit_glyf(&self.glyph_name, &bezpaths)?;
                 let simple_glyphs = SimpleGlyph::interpolatable_glyphs_from_bezpaths(&bezpaths)
                     .map_err(|e| Error::KurboError {
                         glyph_name: self.glyph_name.clone(),
@@ -409,6 +410,7 @@ impl Work<Context, AnyWorkId, Error> for GlyphWork {
                             .collect::<Vec<_>>()
                             .join("\n"),
                     })?;
+                check_deltas_fit_glyf(&self.glyph_name, &simple_glyphs)?;
                 let mut instances = HashMap::new();
                 for (loc, glyph) in locations.into_iter().zip(simple_glyphs) {
                     instances.insert(loc, glyph);
@@ -495,6 +497,51 @@ impl Work<Context, AnyWorkId, Error> for GlyphWork {
 
         Ok(())
     }
+}
+
+/// glyf stores coordinates as 16-bit values; rounding a larger value into an
+/// i16 saturates silently, so reject it while we still have the source value.
+fn check_coordinates_fit_glyf(glyph_name: &GlyphName, bezpaths: &[BezPath]) -> Result<(), Error> {
+    let fits = |v: f64| (i16::MIN as f64..=i16::MAX as f64).contains(&(v + 0.5).floor());
+    for path in bezpaths {
+        for el in path.elements() {
+            let points: &[Point] = match el {
+                PathEl::MoveTo(p) | PathEl::LineTo(p) => std::slice::from_ref(p),
+                PathEl::QuadTo(p1, p2) => &[*p1, *p2],
+                PathEl::CurveTo(p1, p2, p3) => &[*p1, *p2, *p3],
+                PathEl::ClosePath => &[],
+            };
+            if let Some(p) = points.iter().find(|p| !fits(p.x) || !fits(p.y)) {
+                return Err(Error::OutOfBounds {
+                    what: format!("coordinate of glyph '{glyph_name}'"),
+                    value: format!("({}, {})", p.x, p.y),
+                });
+            }
+        }
+    }
+    Ok(())
+}
+
+/// Points are written as 16-bit deltas from the previous point (across contours),
+/// so successive differences have to fit in an i16 as well; otherwise the delta
+/// wraps around (or, with overflow checks on, write-fonts panics).
+fn check_deltas_fit_glyf(glyph_name: &GlyphName, glyphs: &[SimpleGlyph]) -> Result<(), Error> {
+    for glyph in glyphs {
+        let (mut last_x, mut last_y) = (0i32, 0i32);
+        for point in glyph.contours.iter().flat_map(|c| c.iter()) {
+            let (x, y) = (point.x as i32, point.y as i32);
+            for delta in [x - last_x, y - last_y] {
+                if i16::try_from(delta).is_err() {
+                    return Err(Error::OutOfBounds {
+                        what: format!("distance between successive points of glyph '{glyph_name}'"),
+                        value: delta.to_string(),
+                    });
+                }
+            }
+            (last_x, last_y) = (x, y);
+        }
+    }
+    Ok(())
 }
 
 fn cubics_to_quadratics(glyph: CheckedGlyph, units_per_em: u16) -> CheckedGlyph {
